@@ -393,12 +393,14 @@ def _ignored(seqA, seqB, an, op):
     if an.kind == 'delete':
         return [x for x in srcs if x in seqB]
     if an.kind == 'move':
-        out = []
-        for s_ in srcs:
-            keep = lambda seq: [x for x in seq if x == s_ or x not in srcs]
-            if keep(seqA) == keep(seqB) and keep(an.expected) != keep(seqA):
-                out.append(s_)
-        return out
+        # the result is exactly what the message would give with some of the listed ids left out
+        from itertools import combinations
+        tgt = op.get('target') if isinstance(op.get('target'), str) and op.get('tform', 'id') == 'id' else None
+        for n in range(len(srcs) - 1, -1, -1):
+            for sub in combinations(srcs, n):
+                if seq_move(seqA, tgt, list(sub)) == seqB:
+                    return [x for x in srcs if x not in sub]
+        return []
     return []
 
 
